@@ -64,7 +64,7 @@ CHECKS = {
     ),
     "C09": dict(
         level="model_checking",
-        technique="explicit enumeration of all configuration histories (switch / clone / clear / define) up to a depth from an empty context x 66 names x 36 call forms, against a reference resolution model",
+        technique="explicit enumeration of all configuration histories (switch / clone / clear / define) up to a depth from an empty context x 69 names x 36 call forms, against a reference resolution model",
         text="For every builtin name and 17 non-builtin names (incl. near-builtin names differing in letter case, namespace or one character), every history of up to 4 (quick) / 5 (thorough) operations over disable, enable, clone, clone_from, clear_functions, clear_variables, define function, define failing function, bind variable, plus the two fixed-policy contexts; 36 call forms (incl. `n\"ab\"` without a gap) evaluated in each configuration through Node::eval_with_context and through Node::eval_with_context_mut on a clone, with the user function recording its argument. The configuration matrix is finite and is enumerated completely (guarded: all 8 switch x function x variable combinations reached for every name).",
         note="Trusted: reference resolution order (context function, then builtin if enabled, else unknown) and the C10 builtin table for builtin results.",
         design_ref="DESIGN.md section 4, C09",
